@@ -328,6 +328,9 @@ pub fn run(run: &mut Run) {
     run.par_shards("RAW(b) home squares x {.,K,R,k,r,N} x 16 rights x 2 sides", 6, |ctx, sh| raw_b(ctx, sh));
     run.par_shards("RAW(c) en-passant mark on every square x neighbourhood", 64, |ctx, sh| raw_c(ctx, sh));
     run.seq("RAW(d) men counts 0..17 of every kind per side (sixteen-men limit, more than eight pawns, many promoted pieces)", |ctx| raw_d(ctx));
+    run.par_shards("RAW(g) ALIGNED: a king with up to eight enemy sliders aligned at distance 2, each blocked or not, either side to move", crate::universe::ALIGNED_SHARDS, |ctx, sh| {
+        crate::universe::aligned(sh, &mut |r| check_raw(ctx, r));
+    });
     run.par_shards("RAW(f) BACKRANK: king, rooks and queens on the back rank behind a full / nearly full / absent pawn rank, enemy king on the same rank or far", crate::universe::BACKRANK_SHARDS, |ctx, sh| {
         crate::universe::backrank(sh, &mut |r| check_raw(ctx, r));
     });
